@@ -70,6 +70,10 @@ def check(rep):
             ab = bytes(isogen.render([alt]).data)
             datas += [plain, ab + boxcheck.SIB]
             meta += [(label + "/child%d" % ci, "compact", plain), (label + "/child%d" % ci, "hdr64", ab)]
+            if ci == kids[-1]:
+                # the last child in 64-bit form with NOTHING after the box (a cursor that lags behind would read past the end)
+                datas += [plain, ab]
+                meta += [(label + "/child%d/end" % ci, "compact", plain), (label + "/child%d/end" % ci, "hdr64", ab)]
     fails, ties = [], []
     known = [f for f in common.known_findings() if f["property"] == "C05" and f["status"] == "known"]
     seen = set()
